@@ -4,6 +4,7 @@ import Mathlib.Algebra.BigOperators.Group.List.Basic
 import Mathlib.Data.List.Basic
 import Rsa.Lemmas.Tri
 import Rsa.Lemmas.C19
+import Rsa.Core.Calc
 
 set_option linter.unusedSectionVars false
 set_option linter.unusedVariables false
@@ -72,5 +73,12 @@ theorem calcRdm_selectCols (d : List K → List K → K) (ev : List Int) (row : 
     List.map_congr_left (fun c _ => condMean_selectCols _ ev c nb)
   rw [hm, Rsa.pairsOf_map, List.map_map]
   rfl
+
+/-- C01's left-to-right sum is the sum of the tabulated list -/
+theorem sumTo_eq_list_sum (n : Nat) (f : Nat → K) :
+    Rsa.Calc.sumTo n f = ((List.range n).map f).sum := by
+  induction n with
+  | zero => simp [Rsa.Calc.sumTo]
+  | succ n ih => simp [Rsa.Calc.sumTo, List.range_succ, ih]
 
 end Rsa.Searchlight
